@@ -20,7 +20,7 @@ package main
 //   c18 run x<json>       both at once (one parse, one calculation): ( verdict ... ) ( x<state> ( view ) )
 //                         with the panic caught here: ( xpanic x<message> x<top repo frame> )
 //   c18 tables            codes the linked library knows that are not in Gen/*.v:
-//                         ( ( x<country code> iso tax ) ... )
+//                         ( ( x<country code> iso tax ) ... ) ( x<currency code> ... )
 
 import (
 	"encoding/json"
@@ -315,7 +315,11 @@ func init() {
 			for _, d := range l10n.Countries() {
 				cs = append(cs, VL(VS(string(d.Code)), VB(d.ISO), VB(d.Tax)))
 			}
-			return []V{VL(cs...)}
+			var cur []V
+			for _, d := range currency.Definitions() {
+				cur = append(cur, VS(string(d.ISOCode)))
+			}
+			return []V{VL(cs...), VL(cur...)}
 		}
 		return []V{VErr("unknown-c18-op")}
 	})
